@@ -3,6 +3,11 @@
 import json, subprocess, sys
 pid = sys.argv[1]
 tag = sys.argv[2] if len(sys.argv) > 2 else "a"
+style = sys.argv[3] if len(sys.argv) > 3 else ""
+STYLES = {
+    "": "",
+    "deep": " This time, strongly prefer a change that is NOT the most obvious single-line slip in the first file listed: aim at a secondary code path (a rarely taken branch, an error/cleanup path, a helper shared by several callers, state carried over from an earlier operation, a second entry point that reaches the same mechanism, a default argument, a cache) so that the violation only shows after some history or for a narrow class of inputs/configurations.",
+}
 p = next(json.loads(l) for l in open('/verif/properties.jsonl') if json.loads(l)['id'] == pid)
 wt = f"/tmp/wt-{pid}-{tag}"
 subprocess.run(["git", "-C", "/repo", "worktree", "add", "-q", "--detach", wt, "HEAD"], check=True)
@@ -20,7 +25,7 @@ The property that your change must break:
 Requirements for the change:
  1. It modifies only library source under {wt}/xknx/ (not tests), is small (a few lines), still imports, and looks like a plausible mistake or "simplification"/refactoring a maintainer could make (off-by-one, wrong comparison, moved statement, dropped reset, cached value, reordered await, missing mask...).
  2. The repository's existing test-suite must STILL PASS with it: run `cd {wt} && /venv/bin/python -m pytest -q -p no:cacheprovider -x --timeout=900 2>&1 | tail -5` (about 25 s; two tests — test_start_automatic_connection and secure_session_test::test_lifecycle — already fail on the unmodified tree in this sandbox, ignore exactly those two; use `--deselect` for them or run without -x). If any other test fails, pick a different change.
- 3. It must NOT be something ordinary use exposes at once. It should need something specific to manifest: a particular interleaving / event order, a fault at a particular point, a multi-step sequence of operations, an unusual or boundary input, or two cooperating sites that each look fine alone.
+ 3. It must NOT be something ordinary use exposes at once. It should need something specific to manifest: a particular interleaving / event order, a fault at a particular point, a multi-step sequence of operations, an unusual or boundary input, or two cooperating sites that each look fine alone.{STYLES[style]}
  4. It must genuinely violate the property statement above (not just some other behaviour).
 
 Deliverables — write these files into {wt}/_seed/ :
